@@ -115,10 +115,12 @@ pub fn gen_full(r: &mut Rng, o: &FullOpts) -> PDB {
                         // one draw in twelve goes beyond what even the long form has columns for (name > 6,
                         // id > 20 characters, database insertion codes in the long form)
                         let beyond = r.chance(1, 12);
-                        let acc = *r.pick(&["P12345", "P12345", "A0A024R1", "A0A024R1R8", "Q9Y6K9-2XYZ0"]);
-                        let id = if beyond && r.chance(1, 2) { "LONGNAME_OF_PROTEIN_X" } else { *r.pick(&["TEST_HUMAN", "TEST_HUMAN", "TESTAB_HUMAN", "TESTABC_HUMAN", "LONGNAME_OF_PROTEINX"]) };
+                        // a quarter of the references sit right at the five-digit limit of the short form with nothing else asking for the long one
+                        let at_limit = !beyond && r.chance(1, 4);
+                        let acc = if at_limit { "P12345" } else { *r.pick(&["P12345", "P12345", "A0A024R1", "A0A024R1R8", "Q9Y6K9-2XYZ0"]) };
+                        let id = if at_limit { "TEST_HUMAN" } else if beyond && r.chance(1, 2) { "LONGNAME_OF_PROTEIN_X" } else { *r.pick(&["TEST_HUMAN", "TEST_HUMAN", "TESTAB_HUMAN", "TESTABC_HUMAN", "LONGNAME_OF_PROTEINX"]) };
                         let name = if beyond && r.chance(1, 2) { "UNIPROT" } else { *r.pick(&["UNP", "UNP", "GB", "PDB", "TREMBL"]) };
-                        let dlo = if r.chance(1, 6) { *r.pick(&[99_990isize, 999_990]) + r.range(0, 20) as isize } else { 1 };
+                        let dlo = if at_limit { *r.pick(&[99_998isize, 99_999, 100_000]) - (hi - lo).max(0) * r.below(2) as isize } else if r.chance(1, 6) { *r.pick(&[99_990isize, 999_990]) + r.range(0, 20) as isize } else { 1 };
                         let long_form = acc.len() > 8 || id.len() > 12 || dlo > 99_999 - 40;
                         let ins = |r: &mut Rng| if r.chance(1, 6) { *r.pick(&['A', 'B', 'P']) } else { ' ' };
                         let (i1, i2) = (ins(r), ins(r));
